@@ -1,6 +1,8 @@
 package main
 
 import (
+	"bytes"
+	"errors"
 	"fmt"
 	"math/rand"
 	"runtime"
@@ -19,14 +21,26 @@ import (
 // return of UnregisterPrompter, so these events are totally ordered without
 // reference to time - across all prompters of the case.
 type probe struct {
-	ticket   *atomic.Int64
-	inflight atomic.Int32
-	delays   []int // microseconds spent inside, cycled
-	n        atomic.Int64
-	mu       sync.Mutex
-	invs     []map[string]any
-	unreg    atomic.Int64 // ticket drawn right after UnregisterPrompter returned; -1: none
+	ticket    *atomic.Int64
+	inflight  atomic.Int32
+	delays    []int // microseconds spent inside, cycled
+	n         atomic.Int64
+	mu        sync.Mutex
+	invs      []map[string]any
+	inside    int          // invocations inside right now, counted under mu
+	maxInside int          // the largest value inside ever had
+	unreg     atomic.Int64 // ticket drawn right after UnregisterPrompter returned; -1: none
+	// failures: every failEvery-th invocation returns an error (0: never); the failAt-th invocation
+	// signals atGate, blocks on gate (bounded) and then returns an error if its method is in failKinds
+	failEvery int
+	failAt    int64
+	failKinds map[string]bool
+	alsoNext  bool // the invocation after the gated one fails too
+	atGate    chan struct{}
+	gate      chan struct{}
 }
+
+var errProbe = errors.New("probe refuses")
 
 func newProbe(ticket *atomic.Int64, delays []int) *probe {
 	p := &probe{ticket: ticket, delays: delays}
@@ -34,31 +48,72 @@ func newProbe(ticket *atomic.Int64, delays []int) *probe {
 	return p
 }
 
-func (p *probe) enter(kind, text string) {
+func (p *probe) enter(kind, text string) error {
 	tin := p.ticket.Add(1)
 	conc := p.inflight.Add(1)
-	d := p.delays[int(p.n.Add(1))%len(p.delays)]
-	switch {
-	case d == 0:
-		runtime.Gosched()
-	case d < 50:
-		for t := time.Now(); time.Since(t) < time.Duration(d)*time.Microsecond; {
-			runtime.Gosched()
-		}
-	default:
-		time.Sleep(time.Duration(d) * time.Microsecond)
+	p.mu.Lock()
+	p.inside++
+	if p.inside > p.maxInside {
+		p.maxInside = p.inside
 	}
+	p.mu.Unlock()
+	n := p.n.Add(1)
+	var err error
+	gated := false
+	if p.failAt > 0 && n == p.failAt {
+		gated = true
+		close(p.atGate)
+		t := time.NewTimer(5 * time.Second)
+		select { // bounded: the driver opens the gate once it has seen the others parked
+		case <-p.gate:
+		case <-t.C:
+		}
+		t.Stop()
+		if p.failKinds[kind] {
+			err = errProbe
+		}
+	} else {
+		d := p.delays[int(n)%len(p.delays)]
+		switch {
+		case d == 0:
+			runtime.Gosched()
+		case d < 50:
+			for t := time.Now(); time.Since(t) < time.Duration(d)*time.Microsecond; {
+				runtime.Gosched()
+			}
+		default:
+			time.Sleep(time.Duration(d) * time.Microsecond)
+		}
+		if (p.failEvery > 0 && n%int64(p.failEvery) == 0) || (p.alsoNext && p.failAt > 0 && n == p.failAt+1) {
+			err = errProbe
+		}
+	}
+	p.mu.Lock()
+	p.inside--
+	p.mu.Unlock()
 	p.inflight.Add(-1)
 	tout := p.ticket.Add(1)
 	p.mu.Lock()
-	p.invs = append(p.invs, map[string]any{"who": text, "kind": kind, "tin": tin, "tout": tout, "conc": int(conc)})
+	p.invs = append(p.invs, map[string]any{"who": text, "kind": kind, "tin": tin, "tout": tout, "conc": int(conc),
+		"fail": err != nil, "gated": gated})
 	p.mu.Unlock()
+	return err
 }
 
-func (p *probe) Message(m string) error { p.enter("message", m); return nil }
+func (p *probe) Message(m string) error { return p.enter("message", m) }
 func (p *probe) Prompt(m string) (string, error) {
-	p.enter("prompt", m)
+	if err := p.enter("prompt", m); err != nil {
+		return "", err
+	}
 	return "r", nil
+}
+
+// genRecord is what one registration contributes to a record.
+func (p *probe) genRecord(j, g int) map[string]any {
+	p.mu.Lock()
+	defer p.mu.Unlock()
+	return map[string]any{"p": j, "gen": g, "invs": append([]map[string]any{}, p.invs...), "maxin": p.maxInside,
+		"unreg": map[string]any{"ticket": p.unreg.Load()}}
 }
 
 type pcase struct {
@@ -67,10 +122,11 @@ type pcase struct {
 	Reuse     bool   `json:"reuse"`     // after unregistration the same identifier is registered again with a new prompter
 	Callers   int    `json:"callers"`
 	Calls     int    `json:"calls"`
-	Kinds     int64  `json:"kinds"`   // seed of the per-caller Message/Prompt and identifier choice
-	Delays    []int  `json:"delays"`  // microseconds inside the prompter
-	After     int    `json:"after"`   // unregister once this many tickets were drawn ...
-	AfterUs   int    `json:"afterus"` // ... or after this many microseconds, whichever comes first
+	Kinds     int64  `json:"kinds"`     // seed of the per-caller Message/Prompt and identifier choice
+	Delays    []int  `json:"delays"`    // microseconds inside the prompter
+	After     int    `json:"after"`     // unregister once this many tickets were drawn ...
+	AfterUs   int    `json:"afterus"`   // ... or after this many microseconds, whichever comes first
+	FailEvery int    `json:"failevery"` // every m-th invocation of a prompter returns an error (0: never)
 }
 
 var pcaseSerial atomic.Int64
@@ -112,10 +168,7 @@ func registryCase(pc pcase) map[string]any {
 		out := []map[string]any{}
 		for j, ps := range gens {
 			for g, p := range ps {
-				p.mu.Lock()
-				invs := append([]map[string]any{}, p.invs...)
-				p.mu.Unlock()
-				out = append(out, map[string]any{"p": j, "gen": g, "invs": invs, "unreg": map[string]any{"ticket": p.unreg.Load()}})
+				out = append(out, p.genRecord(j, g))
 			}
 		}
 		res := map[string]any{}
@@ -129,6 +182,7 @@ func registryCase(pc pcase) map[string]any {
 	for j := 0; j < pc.Prompters; j++ {
 		ids = append(ids, fmt.Sprintf("%s-%d-p%d", pc.ID, serial, j))
 		gens = append(gens, []*probe{newProbe(&ticket, pc.Delays)})
+		gens[j][0].failEvery = pc.FailEvery
 	}
 	var regErr error
 	regDone := make(chan struct{})
@@ -194,6 +248,7 @@ func registryCase(pc pcase) map[string]any {
 				return
 			}
 			second := newProbe(&ticket, pc.Delays)
+			second.failEvery = pc.FailEvery
 			ok := false
 			guarded(func() {
 				if err := prompting.RegisterPrompterWithIdentifier(ids[j], second); err != nil {
@@ -231,6 +286,215 @@ func registryCase(pc pcase) map[string]any {
 	return finish(hung)
 }
 
+// gcase is a gated scenario: a lead goroutine makes len(Lead) calls on one
+// registered prompter; the K-th invocation of the prompter stays inside (gate)
+// until the driver has seen the Waiters - further Message / Prompt /
+// UnregisterPrompter calls on the same identifier, started one after the other -
+// parked in their channel receive inside pkg/prompting (observed in the
+// goroutine dump, bounded wait), and then returns an error if its method is in
+// Fail. The registry must hand the prompter on to one waiter at a time.
+type gcase struct {
+	Gated   bool     `json:"gated"`
+	ID      string   `json:"id"`
+	Lead    []string `json:"lead"`    // kinds of the lead's calls: message | prompt
+	K       int      `json:"k"`       // the failing (gated) invocation, 1..len(Lead)
+	Fail    []string `json:"fail"`    // methods that return the error: message, prompt
+	Next    bool     `json:"next"`    // the following invocation fails too
+	Waiters []string `json:"waiters"` // message | prompt | unregister, in the order they are started
+	Delays  []int    `json:"delays"`
+}
+
+// parkedInRegistry counts goroutines blocked in a channel receive inside
+// prompting.Message / Prompt / UnregisterPrompter (the receive from the holder).
+func parkedInRegistry() int {
+	buf := make([]byte, 1<<20)
+	buf = buf[:runtime.Stack(buf, true)]
+	n := 0
+	for _, g := range bytes.Split(buf, []byte("\n\n")) {
+		head, _, _ := bytes.Cut(g, []byte("\n"))
+		if !bytes.Contains(head, []byte("[chan receive")) {
+			continue
+		}
+		if bytes.Contains(g, []byte("pkg/prompting.Message(")) || bytes.Contains(g, []byte("pkg/prompting.Prompt(")) ||
+			bytes.Contains(g, []byte("pkg/prompting.UnregisterPrompter(")) {
+			n++
+		}
+	}
+	return n
+}
+
+func gatedCase(gc gcase) map[string]any {
+	serial := pcaseSerial.Add(1)
+	id := fmt.Sprintf("%s-%d", gc.ID, serial)
+	k := newClock()
+	var ticket atomic.Int64
+	p := newProbe(&ticket, gc.Delays)
+	p.failAt, p.alsoNext = int64(gc.K), gc.Next
+	p.failKinds = map[string]bool{}
+	for _, f := range gc.Fail {
+		p.failKinds[f] = true
+	}
+	p.atGate, p.gate = make(chan struct{}), make(chan struct{})
+	var mu sync.Mutex
+	panics := []string{}
+	results := map[string]int{}
+	note := func(what string) { mu.Lock(); results[what]++; mu.Unlock() }
+	guarded := func(f func()) {
+		defer func() {
+			if r := recover(); r != nil {
+				mu.Lock()
+				panics = append(panics, asciiOnly(fmt.Sprint(r)))
+				mu.Unlock()
+			}
+		}()
+		f()
+	}
+	reached, parked, base := false, 0, 0
+	finish := func(hung bool) map[string]any {
+		mu.Lock()
+		defer mu.Unlock()
+		res := map[string]any{}
+		for k, v := range results {
+			res[k] = v
+		}
+		return map[string]any{"ev": "RegistryCase", "gens": []map[string]any{p.genRecord(0, 0)},
+			"panics": append([]string{}, panics...), "results": res, "hung": hung, "elapsed": k.us(),
+			"gate": map[string]any{"k": gc.K, "reached": reached, "parked": parked, "want": len(gc.Waiters)}}
+	}
+	call := func(kind, text string) {
+		guarded(func() {
+			var err error
+			switch kind {
+			case "message":
+				err = prompting.Message(id, text)
+			case "prompt":
+				_, err = prompting.Prompt(id, text)
+			case "unregister":
+				prompting.UnregisterPrompter(id)
+				p.unreg.Store(ticket.Add(1))
+			}
+			if err == nil {
+				note(kind + " ok")
+			} else {
+				note(kind + ": " + asciiOnly(err.Error()))
+			}
+		})
+	}
+	all := make(chan struct{})
+	go func() {
+		defer close(all)
+		if err := prompting.RegisterPrompterWithIdentifier(id, p); err != nil {
+			note("register: " + asciiOnly(err.Error()))
+			return
+		}
+		var wg sync.WaitGroup
+		wg.Add(1)
+		go func() {
+			defer wg.Done()
+			for i, kind := range gc.Lead {
+				call(kind, fmt.Sprintf("lead.%d", i))
+			}
+		}()
+		t := time.NewTimer(3 * time.Second)
+		select {
+		case <-p.atGate:
+			reached = true
+		case <-t.C:
+		}
+		t.Stop()
+		if reached {
+			base = parkedInRegistry() // leftovers of earlier, broken cases
+			for i, kind := range gc.Waiters {
+				wg.Add(1)
+				go func() { defer wg.Done(); call(kind, fmt.Sprintf("w%d", i)) }()
+				// the next one is started only when this one is parked, so the queue order is the script's
+				for dl := time.Now().Add(2 * time.Second); parkedInRegistry()-base < i+1 && time.Now().Before(dl); {
+					runtime.Gosched()
+				}
+			}
+			parked = parkedInRegistry() - base
+		}
+		close(p.gate)
+		wg.Wait()
+		if p.unreg.Load() < 0 {
+			call("unregister", "end")
+		}
+	}()
+	hung := !waitOrTimeout(all, promptingWatchdog)
+	return finish(hung)
+}
+
+// gatedScenarios enumerates: 1-4 lead calls, every failing position k, which
+// method(s) fail, and every sequence of 1-3 waiters (message / prompt / at most
+// one unregister, last) - all combinations, seeded only in the kinds of the lead's
+// calls and the time spent inside.
+func gatedScenarios(r *rand.Rand) []gcase {
+	kinds := []string{"message", "prompt", "unregister"}
+	var seqs [][]string
+	var build func(cur []string)
+	build = func(cur []string) {
+		if len(cur) > 0 {
+			seqs = append(seqs, append([]string{}, cur...))
+		}
+		if len(cur) == 3 {
+			return
+		}
+		for _, kd := range kinds {
+			if contains(cur, "unregister") { // nothing can queue up behind an unregistration: it is the last waiter
+				continue
+			}
+			build(append(cur, kd))
+		}
+	}
+	build(nil)
+	var out []gcase
+	for n := 1; n <= 4; n++ {
+		for k := 1; k <= n; k++ {
+			for _, ws := range seqs {
+				lead := make([]string, n)
+				for i := range lead {
+					lead[i] = kinds[r.Intn(2)]
+				}
+				fail := []string{lead[k-1]}
+				if r.Intn(2) == 0 {
+					fail = []string{"message", "prompt"}
+				}
+				out = append(out, gcase{Gated: true, ID: fmt.Sprintf("gated-%d", len(out)), Lead: lead, K: k, Fail: fail,
+					Next: r.Intn(3) == 0, Waiters: ws, Delays: []int{[]int{0, 0, 5, 20}[r.Intn(4)], 0}})
+			}
+		}
+	}
+	return out
+}
+
+func contains(s []string, x string) bool {
+	for _, y := range s {
+		if y == x {
+			return true
+		}
+	}
+	return false
+}
+
+func emitGatedCase(c *vlib.Ctx, cid int, gc gcase, rec map[string]any) {
+	rec["cid"] = cid
+	rec["in"] = gc
+	c.Emit(rec)
+	c.Eval()
+	c.TraceDone()
+	g := rec["gate"].(map[string]any)
+	if g["reached"] == true && g["parked"].(int) >= g["want"].(int) {
+		c.NonTrivial("gated:" + hashOf(gc))
+		c.AddExtra("gated_failures_with_all_waiters_parked", 1)
+	}
+	if rec["hung"] == true {
+		c.AddExtra("hung_cases", 1)
+	}
+	if cid < 1 {
+		c.Sample(rec)
+	}
+}
+
 func asciiOnly(s string) string {
 	var b strings.Builder
 	for _, r := range s {
@@ -257,6 +521,7 @@ func genRegistryCase(r *rand.Rand, i int, deep bool) pcase {
 	total := 2 * pc.Callers * pc.Calls // tickets if every call reached the prompter
 	pc.After = r.Intn(total + 2)
 	pc.AfterUs = []int{0, 50, 300, 2000, 20000}[r.Intn(5)]
+	pc.FailEvery = []int{0, 0, 1, 2, 3, 5}[r.Intn(6)]
 	return pc
 }
 
@@ -363,6 +628,12 @@ func runPrompting(c *vlib.Ctx) error {
 		}
 		emitRegistryCase(c, i, cases[i], rec)
 	}
+	// gated failures with queued waiters: one at a time (the parked goroutines are counted process-wide)
+	gs := gatedScenarios(c.Rand)
+	for i, gc := range gs {
+		emitGatedCase(c, n+i, gc, gatedCase(gc))
+	}
+	c.SetExtra("gated_scenarios", len(gs))
 	// response mode: every token sequence up to the depth, then random prompts
 	var walk func(prefix []string)
 	count := 0
@@ -397,6 +668,18 @@ func replayPrompting(c *vlib.Ctx, begin map[string]any) error {
 		}
 		vlib.Decode(begin["in"], &in)
 		emitMode(c, in.Tokens, in.Prompt)
+		return nil
+	}
+	if in, _ := begin["in"].(map[string]any); in != nil && in["gated"] == true {
+		var gc gcase
+		vlib.Decode(begin["in"], &gc)
+		for i := 0; i < 5; i++ {
+			before := overruns.Load()
+			emitGatedCase(c, i, gc, gatedCase(gc))
+			if overruns.Load() > before {
+				break
+			}
+		}
 		return nil
 	}
 	var pc pcase
